@@ -11,6 +11,7 @@ import json
 import os
 import shutil
 import subprocess
+os.environ["VERIF_EVIDENCE_DIR"] = "/verif/.work/evidence"   # never the committed evidence
 import sys
 import time
 
